@@ -20,7 +20,7 @@ const ARGV_ROOTS: [&str; 15] = [
 const FILES0_ONLY: [&str; 3] = ["", "-dash", "new\nline"];
 
 fn bounds(t: Tier) -> usize {
-    t.pick(2, 4)
+    t.pick(2, 5)
 }
 
 fn spec(t: Tier) -> Spec {
